@@ -227,3 +227,51 @@ Qed.
 
 Lemma coap_decode_all_total : forall start d, coap_decode_all start d <> OutOfFuel.
 Proof. intros. unfold coap_decode_all. apply coap_decode_all_fuel. lia. Qed.
+
+(* ---------------------------------------------------------------- repeated ids: the dict keeps the last position *)
+Lemma dict_get_none {K V} (eqb : K -> K -> bool) (k : K) : forall (ids : list K) (rs : list V),
+  (forall j k', nth_error ids j = Some k' -> eqb k k' = false) ->
+  dict_get eqb k (combine ids rs) = None.
+Proof.
+  induction ids as [|k0 ids IH]; intros rs H; [reflexivity|].
+  destruct rs as [|r rs]; [reflexivity|].
+  cbn [combine dict_get]. rewrite IH.
+  - rewrite (H 0 k0 eq_refl). reflexivity.
+  - intros j k' Hj. exact (H (S j) k' Hj).
+Qed.
+
+Lemma dict_get_last {K V} (eqb : K -> K -> bool) (k : K) : forall (ids : list K) (rs : list V) i r,
+  eqb k k = true ->
+  nth_error ids i = Some k -> nth_error rs i = Some r ->
+  (forall j k', i < j -> nth_error ids j = Some k' -> eqb k k' = false) ->
+  dict_get eqb k (combine ids rs) = Some r.
+Proof.
+  intros ids rs i r Hkk. revert rs i.
+  induction ids as [|k0 ids IH]; intros rs i Hi Hr Hlater; [destruct i; discriminate|].
+  destruct rs as [|r0 rs]; [destruct i; discriminate|].
+  cbn [combine dict_get].
+  destruct i as [|i].
+  - cbn in Hi, Hr. injection Hi as ->. injection Hr as ->.
+    rewrite dict_get_none.
+    + rewrite Hkk. reflexivity.
+    + intros j k' Hj. apply (Hlater (S j) k'); [lia|exact Hj].
+  - cbn [nth_error] in Hi, Hr.
+    rewrite (IH rs i Hi Hr); [reflexivity|].
+    intros j k' Hlt Hj. apply (Hlater (S j) k'); [lia|exact Hj].
+Qed.
+
+(* the read result as a dict: key k (possibly requested several times) carries the outcome of
+   its last position i - the item the accessory answered for request PDU i *)
+Lemma coap_result_last_wins_l {K} (eqb : K -> K -> bool) (ids : list K) items i k it :
+  items <> [] -> forallb coap_item_ok items = true -> length ids = length items ->
+  eqb k k = true -> nth_error ids i = Some k -> nth_error items i = Some it ->
+  (forall j k', i < j -> nth_error ids j = Some k' -> eqb k k' = false) ->
+  exists prs, rbind (coap_decode_all 0 (concat (map coap_render items))) (coap_exit_all ids) = Ok prs
+              /\ dict_get eqb k prs = Some (coap_classify (N.of_nat i) it).
+Proof.
+  intros Hne Hok Hl Hkk Hi Hit Hlater.
+  destruct (coap_result_keys_l ids items Hne Hok Hl) as [E _].
+  eexists. split; [exact E|].
+  eapply dict_get_last; try eassumption.
+  rewrite classify_from_nth, Hit. reflexivity.
+Qed.
